@@ -261,14 +261,16 @@ class Fixture:
         self.edbs = [sch.EDBSetup(self.key, d).serialize() for d in self.dbs]
         self.tok = sch.TokenGen(self.key, self.kw).serialize()
         self.tok_digest = hashlib.sha256(self.tok).digest()
+        self.kw2 = b'other'                                            # one posting in db1, absent from db2
+        self.tok2 = sch.TokenGen(self.key, self.kw2).serialize()
         self.cfgobj = sch.config
         det.restore()
 
     def decode_result(self, content):
         return self.L.SSEResult.deserialize(content, self.cfgobj).get_result_list()
 
-    def answer(self, which):
-        return list({1: self.db1, 2: self.db2}[which][self.kw])
+    def answer(self, which, kw=None):
+        return list({1: self.db1, 2: self.db2}[which].get(kw or self.kw, []))
 
 
 class ClientDriver:
